@@ -128,6 +128,10 @@ def value_for(t, i, depth=0):
         return [a, b], '[%s,%s]' % (sa, sb)
     if c == 'object':
         o = make_object(t['class'], depth)
+        if t.get('mode') in ('ref', 'shared', 'raw'):
+            # received by reference / pointer: C++ must see this very object, not a copy
+            OUT['identity_args'] = OUT.get('identity_args', 0) + 1
+            return o, '#%d@%d' % (origin(o), m._verif_tag(o))
         return o, '#%d' % origin(o)
     raise NoValue('type category ' + c + ' ' + str(t.get('spelling')))
 
@@ -520,7 +524,7 @@ def _class(c, cls, phase):
                         skip('operator ' + sym)
                         continue
                     res = f(a, b)
-                    sers = ['#%d' % origin(b)]
+                    sers = ['#%d@%d' % (origin(b), m._verif_tag(b))]     # operator arguments are const references
             except NoValue as e:
                 skip(str(e)[:60])
                 continue
